@@ -198,6 +198,14 @@ type World struct {
 	nOp    int
 	// OpTimeout bounds every call into the mint.
 	OpTimeout time.Duration
+	// Conc: operations run concurrently under the scheduler; events carry call/return
+	// sequence numbers instead of a projection.
+	Conc   bool
+	evMu   sync.Mutex
+	clock  int64
+	spans  map[int64][2]int64
+	NoPost bool
+	Big    sync.Mutex
 }
 
 type rng struct{ s uint64 }
@@ -424,6 +432,17 @@ type Event struct {
 	A    map[string]any `json:"a"`
 	R    map[string]any `json:"r"`
 	Post map[string]any `json:"post"`
+	C    int64          `json:"c"` // call sequence number (concurrent segments)
+	T    int64          `json:"t"` // return sequence number
+	Proc string         `json:"proc"`
+}
+
+// Tick advances the logical clock used to order calls and returns of concurrent operations.
+func (w *World) Tick() int64 {
+	w.evMu.Lock()
+	defer w.evMu.Unlock()
+	w.clock++
+	return w.clock
 }
 
 func (w *World) emit(ev string, a, r map[string]any) *Event {
@@ -433,8 +452,23 @@ func (w *World) emit(ev string, a, r map[string]any) *Event {
 	if r == nil {
 		r = map[string]any{"ok": true}
 	}
+	var post map[string]any
+	if w.Conc || w.NoPost {
+		post = map[string]any{}
+	} else {
+		post = w.Project()
+	}
+	w.evMu.Lock()
+	defer w.evMu.Unlock()
 	w.nOp++
-	e := Event{Tr: w.Tr, I: w.nOp, Ev: ev, A: a, R: r, Post: w.Project()}
+	e := Event{Tr: w.Tr, I: w.nOp, Ev: ev, A: a, R: r, Post: post}
+	if sp, ok := w.spans[sched.Gid()]; ok {
+		e.C, e.T = sp[0], sp[1]
+		delete(w.spans, sched.Gid())
+	} else {
+		w.clock++
+		e.C, e.T = w.clock, w.clock
+	}
 	w.Events = append(w.Events, e)
 	return &w.Events[len(w.Events)-1]
 }
@@ -458,6 +492,31 @@ func errInfo(err error) map[string]any {
 
 // guard runs fn, converting a panic or a hang into facts.
 func (w *World) guard(fn func() error) (err error, panicked bool, panicMsg string) {
+	if w.Conc {
+		// already on the operation's own (scheduled) goroutine: the mint must be called from it.
+		// The world lock serialises registry access between concurrent operations and is
+		// released for the duration of the call into the mint.
+		w.Big.Unlock()
+		defer w.Big.Lock()
+		c := w.Tick()
+		func() {
+			defer func() {
+				if rec := recover(); rec != nil {
+					panicked = true
+					panicMsg = fmt.Sprint(rec)
+				}
+			}()
+			err = fn()
+		}()
+		t := w.Tick()
+		w.evMu.Lock()
+		if w.spans == nil {
+			w.spans = map[int64][2]int64{}
+		}
+		w.spans[sched.Gid()] = [2]int64{c, t}
+		w.evMu.Unlock()
+		return
+	}
 	done := make(chan struct{})
 	go func() {
 		defer close(done)
